@@ -33,7 +33,78 @@ def auer_probe(rng):
             "auer_empirical": True, "no_shrink": True}
 
 
+def real_spec(rng, algo):
+    """PaVeBa / Auer with their real empirical model and scripted (dyadic, small) observation noise"""
+    m = 2
+    if algo == "Auer-real":
+        cone = "orthant2"
+    else:
+        cone = rng.choice(CONES2 + ["redundant2"])
+    W = gen.CONES_2D[cone][0]
+    K = rng.choice([2, 3, 4, 5])
+    eps = rng.choice([0.125, 0.25, 0.5])
+    Y = []
+    for k in range(K):
+        if Y and rng.random() < 0.3:
+            b = rng.choice(Y); Y.append([x + rng.choice([-1, 1]) * eps * rng.choice([0.5, 1.125, 2.0]) for x in b])
+        else:
+            Y.append([dy(rng, -2, 2, 8) for _ in range(m)])
+    X = [[(k % 4) / 4.0, (k // 4) / 4.0] for k in range(K)]
+    c = rng.choice([4.0, 8.0, 16.0])
+    amp = rng.choice([0.0, 1 / 64, 1 / 32]) / c * 4
+    noise = [[[rng.choice([-1, -0.5, 0, 0.5, 1]) * amp for _ in range(m)] for _ in range(K)] for _ in range(12)]
+    if algo == "PaVeBa-real" and cone != "redundant2" and rng.random() < 0.5:
+        # facet-adversarial valid history: first observations of designs 0 and 1 are pushed along a
+        # facet normal in opposite directions by just under the round-1 radius (exact afterwards);
+        # mode A: truths unordered on that facet (a too-eager discard is wrong);
+        # mode B: design 1 exceeds design 0 by a bit more than eps*alpha on every facet and the
+        #         observations are pushed apart (a too-eager declaration of design 0 is wrong)
+        import math
+        import numpy as _np
+        Wn = _np.array(W, dtype=float)
+        c = rng.choice([1.0, 2.0, 4.0]); K = rng.choice([2, 3])
+        r1 = math.sqrt(8 * 0.01 * math.log(math.pi ** 2 * (m + 1) * K / (6 * 0.1))) / c
+        n = rng.randrange(2)
+        wn = Wn[n]; nw = float(_np.linalg.norm(wn)); wh = wn / nw
+        OFF = 0.9 * r1
+        dint = _np.linalg.solve(Wn, _np.ones(2))                     # W dint = (1,1)
+        mode = rng.choice(["A", "B"])
+        if mode == "A":
+            base = dint * (6 * r1 * nw)                              # comfortably positive on both facets
+            dmu = base - wh * ((wn @ base) / nw + 0.4 * r1)          # facet n: w.dmu = -0.4 r |w|
+            sgn = 1.0
+        else:
+            import impl as _impl
+            al = _impl.order_from_W(W, with_alpha=True).ordering_cone.alpha.flatten()
+            dmu = _np.linalg.solve(Wn, 1.15 * eps * al)              # exceeds eps*alpha by 15% on every facet
+            sgn = -1.0
+        g = 2.0 ** 12
+        dmu = _np.round(dmu * g) / g
+        off = _np.trunc(OFF * wh * g) / g
+        Y = [[0.0, 0.0], [float(dmu[0]), float(dmu[1])]] + ([[-40.0, -40.0]] if K == 3 else [])
+        X = [[(k % 4) / 4.0, (k // 4) / 4.0] for k in range(K)]
+        noise = [[[0.0] * m for _ in range(K)] for _ in range(12)]
+        noise[1] = [[-sgn * float(off[0]), -sgn * float(off[1])], [sgn * float(off[0]), sgn * float(off[1])]] + ([[0.0, 0.0]] if K == 3 else [])
+        noise[0] = noise[1]
+        return {"algo": algo, "cone": cone, "W": W, "X": X, "Y": Y, "eps": eps, "valid_by_construction": True, "style": "facet-adversarial-" + mode,
+                "means": [Y], "hw": [[[1.0] * m for _ in range(K)]], "batch": 1, "contraction": c, "costs": None, "budget": None,
+                "auer_empirical": False, "obs_noise": noise}
+    if algo == "PaVeBa-real" and rng.random() < 0.6:
+        # adversarial first observation: off by just under the round-1 radius, exact afterwards
+        import math
+        r1 = math.sqrt(8 * 0.01 * math.log(math.pi ** 2 * (m + 1) * K / (6 * 0.1))) / c
+        a = math.floor(0.65 * r1 * 1024) / 1024
+        noise = [[[0.0] * m for _ in range(K)] for _ in range(12)]
+        noise[1] = [[rng.choice([-1, 1]) * a for _ in range(m)] for _ in range(K)]
+        noise[0] = noise[1]
+    return {"algo": algo, "cone": cone, "W": W, "X": X, "Y": Y, "eps": eps, "valid_by_construction": True, "style": "real-model",
+            "means": [Y], "hw": [[[1.0] * m for _ in range(K)]], "batch": 1, "contraction": c, "costs": None, "budget": None,
+            "auer_empirical": (rng.random() < 0.5) if algo == "Auer-real" else False, "obs_noise": noise}
+
+
 def make_spec(rng, algo, valid=None, small=True):
+    if algo.endswith("-real"):
+        return real_spec(rng, algo)
     if algo == "Auer" and rng.random() < 0.3:
         return auer_probe(rng)
     fam = algrun.FAMILY[algo]
@@ -89,6 +160,8 @@ def make_spec(rng, algo, valid=None, small=True):
                     off = [0.0] * m
                 else:
                     off = [x * rng.choice([-0.75, -0.5, 0.0, 0.25, 0.5, 0.875]) for x in h]
+                if reg == "ell":
+                    off = [x * 0.5 for x in off]          # stay inside the ball, not just the bounding box
                 mu.append([a + b for a, b in zip(Y[k], off)])
             else:
                 mu.append([dy(rng, -2, 2, 16) for _ in range(m)])
@@ -123,7 +196,9 @@ def sched_of(spec):
 
 
 def run_spec(spec, max_steps=14):
-    rec = algrun.run_algo(spec["algo"], spec["X"], spec["Y"], spec["W"], spec["eps"], sched_of(spec), max_steps=max_steps,
+    on = spec.get("obs_noise")
+    extra = {"obs_noise": (lambda r, i: on[min(r, len(on) - 1)][i])} if on else {}
+    rec = algrun.run_algo(spec["algo"], spec["X"], spec["Y"], spec["W"], spec["eps"], sched_of(spec), max_steps=max_steps, **extra,
                           batch=spec.get("batch", 1), costs=spec.get("costs"), budget=spec.get("budget"),
                           contraction=spec.get("contraction", 1.0), auer_empirical=spec.get("auer_empirical", False))
     rec["spec"] = spec
